@@ -5,6 +5,7 @@
 import GSV.Props.C08
 import GSV.Model.Vario
 import GSV.Lemmas.Sum
+import GSV.Lemmas.LatLon
 import Mathlib.LinearAlgebra.Matrix.DotProduct
 import Mathlib.Data.Matrix.Mul
 import Mathlib.Tactic.Ring
@@ -223,6 +224,67 @@ theorem binsToRadians_spec (bins : List ℝ) (g : ℝ) :
     GSV.Model.Vario.binsToRadians bins true g = bins.map (· / g) ∧
     GSV.Model.Vario.binsToRadians bins false g = bins := by
   simp [GSV.Model.Vario.binsToRadians]
+
+/-! ### the binning glue: explicit `bin_edges` or `standard_bins(bin_no, max_dist, geo_scale)` -/
+
+open GSV.Model.Vario in
+theorem binCentres_scale (g : ℝ) (e : List ℝ) : binCentres (e.map (g * ·)) = (binCentres e).map (g * ·) := by
+  unfold binCentres
+  rw [← List.map_tail, List.zip_map, List.map_map, List.map_map]
+  refine List.map_congr_left fun p _ => ?_
+  simp only [Function.comp, Prod.map]
+  ring
+
+open GSV.Model.Vario in
+theorem binsToRadians_scale {g : ℝ} (hg : 0 < g) (e : List ℝ) :
+    binsToRadians (e.map (g * ·)) true g = binsToRadians e true 1 := by
+  simp only [binsToRadians, if_true, List.map_map]
+  refine List.map_congr_left fun x _ => ?_
+  simp only [Function.comp]
+  field_simp
+
+open GSV.Model.Vario in
+/-- what `vario_estimate` returns as bin centres and hands to the kernel, spelled out: the edges are the given ones or
+    those of `standard_bins` (called with the same `geo_scale`, `bin_no`, `max_dist`), the centres are their mid-points
+    (same unit), the kernel gets the edges divided by `geo_scale` for lat-lon input and unchanged otherwise -/
+theorem varioBins_spec (be : Option (List ℝ)) (latlon : Bool) (g : ℝ) (axes : List (List ℝ)) (bn : Option ℕ) (md : Option ℝ)
+    (c k : List ℝ) (h : varioBins be latlon g axes bn md = .ok (c, k)) :
+    ∃ e, (match be with | some e' => e = e' | none => GSV.Model.LatLon.standardBins latlon g (some axes) bn md = .ok e) ∧
+      c = binCentres e ∧ k = (if latlon then e.map (· / g) else e) := by
+  unfold varioBins at h
+  cases be with
+  | some e' =>
+    simp only [Except.ok.injEq, Prod.mk.injEq] at h
+    exact ⟨e', rfl, h.1.symm, by rw [← h.2]; simp [binsToRadians]⟩
+  | none =>
+    simp only at h
+    cases hs : GSV.Model.LatLon.standardBins latlon g (some axes) bn md with
+    | error err => rw [hs] at h; simp at h
+    | ok e =>
+      rw [hs] at h
+      simp only [Except.ok.injEq, Prod.mk.injEq] at h
+      exact ⟨e, rfl, h.1.symm, by rw [← h.2]; simp [binsToRadians]⟩
+
+open GSV.Model.Vario in
+/-- **great-circle binning in any length unit equals binning in radians after unit conversion**, for every way of
+    describing the bins: with `geo_scale = g > 0` and all lengths the caller gives (`bin_edges`, `max_dist`) expressed in
+    that unit, the kernel receives exactly the edges of the radian call and the returned bin centres are the radian
+    centres times `g` — `bin_edges` given or not, `bin_no` given or not, `max_dist` given or not -/
+theorem varioBins_geo_scale {g : ℝ} (hg : 0 < g) (be : Option (List ℝ)) (axes : List (List ℝ)) (bn : Option ℕ) (md : Option ℝ) :
+    varioBins (be.map fun e => e.map (g * ·)) true g axes bn (md.map (g * ·))
+      = (varioBins be true 1 axes bn md).map (fun ck => (ck.1.map (g * ·), ck.2)) := by
+  unfold varioBins
+  cases be with
+  | some e =>
+    simp only [Option.map_some, Except.map, binCentres_scale, binsToRadians_scale hg]
+  | none =>
+    simp only [Option.map_none]
+    rw [GSV.Model.LatLon.standardBins_geo_scale hg]
+    cases GSV.Model.LatLon.standardBins true 1 (some axes) bn md with
+    | error err => rfl
+    | ok e => simp only [Except.map, binCentres_scale, binsToRadians_scale hg]
+
+example : (0:ℝ) < 6371 := by norm_num
 
 example : ∃ Q : Matrix (Fin 2) (Fin 2) ℝ, Q.transpose * Q = 1 ∧ Q ≠ 1 :=
   ⟨!![0, -1; 1, 0], by ext i j; fin_cases i <;> fin_cases j <;> simp [Matrix.mul_apply, Fin.sum_univ_two],
